@@ -22,7 +22,8 @@ RULE = ('seeded random (pva, lever arm, body rates present/absent, measurement v
         'rates up to 1.5 rad/s; non-trivial = lever arm present or 2-D mode or rates present (the existing filter '
         'tests use none of these with a checked Jacobian); distinct = generator parameters'
         " Round 3: lever arms with exactly-zero components ([x, 0, 0]) judged against the lever the harness passed (not the object's copy), measurement tables with permuted / extra columns, simulated fixes for a vehicle within metres of the antimeridian."
-        ' Round 4: unrelated extra columns with NaN gaps (a slower sensor in the same log); records whose values repeat at different stamps (zero-velocity updates): every stamp must answer; closed ends of the domain.')
+        ' Round 4: unrelated extra columns with NaN gaps (a slower sensor in the same log); records whose values repeat at different stamps (zero-velocity updates): every stamp must answer; closed ends of the domain.'
+        ' Round 5: with_altitude as bool or numpy.bool_.')
 ASSUMPTIONS = ['Jacobian reference = Richardson central differences of the real residual through the real correct_pva; '
                'steps 10 m / 1 m/s / 1e-4 rad', 'position residual compared to first order: bound 4|z|^2 (1+tan lat)/R']
 REQUIRED_OBS = ['repeated_value_rows_checked', 'lever_with_zero_components', 'data_columns_permuted', 'simulated_fixes_at_antimeridian', 'history_independence_checked', 'residual_checked', 'jacobian_checked', 'noise_checked', 'absent_time_checked', 'sim_zero_residual',
